@@ -186,6 +186,9 @@ theorem deriv_undef_at_entry (env : Env K) (hE : IsExp env.E) (hflag : Gen.deriv
     specValue env (.dundefAt c n a b) = (lcapyTerm env (.dundefAt c n a b)).2 :=
   deriv_undef_at_entry' env hE hflag hz c a b n ha hb hx
 
+/-- the source does (GENERATED flag, re-read on every run; a regression of fix C09-F24 breaks exactly this) -/
+theorem deriv_undef_applies_shift : Gen.derivAppliesShift = true := by decide
+
 /-- … and in either form for the plain argument `x(t)` -/
 theorem deriv_undef_at_plain_entry (env : Env K) (hE : IsExp env.E) (hz : env.zic = true) (c : K) (n : Nat)
     (hx : NonPole env.xsig.post env.s) :
@@ -206,6 +209,9 @@ theorem delta_undef_before_origin_spec (env : Env K) (c a b : K) (h0 : ¬ 0 ≤ 
 theorem delta_undef_entry (env : Env K) (hflag : Gen.deltaUndefSifts = true) (c a b : K) (h0 : 0 ≤ -(b / a))
     (hcont : contAt env.xsig.post (-(b / a)) = true) :
     specValue env (.deltaX c a b) = (lcapyTerm env (.deltaX c a b)).2 := delta_undef_entry' env hflag c a b h0 hcont
+
+/-- the source does (GENERATED flag; a regression of fix C09-F25 breaks exactly this) -/
+theorem delta_undef_sifts : Gen.deltaUndefSifts = true := by decide
 
 example : contAt [Term.ep (1 : ℚ) 0 (-3) 0] (1 / 2) = true := by norm_num [contAt]
 
